@@ -105,6 +105,33 @@ class Totality(Part):
         return c
 
 
+class FuzzSchema(Part):
+    """Coverage-guided campaign (atheris/libFuzzer) on the three from_string parsers (totality clause).
+    Most of the work is inside C-level regular expressions, so coverage feedback is weak; inputs are capped at
+    120 characters like the other totality inputs."""
+
+    name = "atheris-schema"
+    fuzz = True
+    shards = {QUICK: 0, THOROUGH: 8}
+    fuzz_runs = {QUICK: 0, THOROUGH: 300000}
+    fuzz_max_len = 160
+    budget = {QUICK: 10.0, THOROUGH: 2400.0}
+
+    def seed_corpus(self) -> t.List[bytes]:
+        return [b"\x00( 2.5.6.6 NAME 'person' DESC 'a \\27person\\27' SUP top STRUCTURAL MUST ( sn $ cn ) MAY x X-ORIGIN 'RFC 4519' )",
+                b"\x01( 2.5.4.3 NAME ( 'cn' 'commonName' ) SUP name SYNTAX 1.3.6.1.4.1.1466.115.121.1.15{64} SINGLE-VALUE USAGE dSAOperation X-A ( 'a' 'b' ) )",
+                b"\x02( 2.5.6.4 NAME 'x' AUX ( a $ b ) MUST c MAY d NOT ( e $ f ) )"]
+
+    def check(self, case: t.Any, ctx: Ctx) -> t.List[Violation]:
+        data = case["data"] or b"\x00"
+        kind = rfc4512.KINDS[data[0] % 3]
+        text = data[1:].decode("utf-8", "surrogateescape")
+        return Totality().check({"kind": kind, "text": text}, ctx)
+
+    def sample(self, case: t.Any) -> t.Any:
+        return case["data"][:120].decode("utf-8", "surrogateescape")
+
+
 PROP = Property(
     id="C17",
     rule=(
@@ -117,7 +144,7 @@ PROP = Property(
         "Non-trivial = a sentence that uses more than minimum spacing somewhere and has >=1 extension or parenthesised "
         "list (totality: text starting like '( numericoid'); distinct by text."
     ),
-    parts=[Sentences(), Totality()],
+    parts=[Sentences(), Totality(), FuzzSchema()],
     assumptions=["extension keys distinct after removing the X-/x- prefix; totality inputs truncated to 120 characters (cost is C18's subject)"],
     selftest=_selftest,
     technique="grammar-based sentence generation with derivation-denoted fields + independent RFC 4512 reference parser; text fuzzing for totality",
